@@ -146,14 +146,14 @@ func verifStringsContains(s, sub string) bool { return verifStubBool("err.contai
 
 // scripted listener
 type verifLn struct {
-	script [6]int // 0 end (no pending connection), 1 connection, 2 EMFILE, 3 ENFILE
+	script [14]int // 0 end (no pending connection), 1 connection, 2 EMFILE, 3 ENFILE
 	pos    int
 	nextFd int
 }
 
 func (l *verifLn) Accept() (net.Conn, error) {
 	verifSrv.accepts++
-	verifAssume(l.pos < 6)
+	verifAssume(l.pos < 14)
 	k := l.script[l.pos]
 	l.pos++
 	switch k {
@@ -249,7 +249,7 @@ func verifHarness_C13_accepthup() {
 // table, after the listener was detached and closed; the busy connection is not closed while
 // its handler runs; if the context fires first its error is returned.
 //
-//verif:bounds 2 tracked connections (1 idle, 1 busy); the busy handler finishes after 0..2 waits or never; context fires or not
+//verif:bounds 2 tracked connections (1 idle, 1 busy, either order in the table); the busy handler finishes after 0..2 waits or never; context fires or not
 //verif:loop 40
 //verif:replay interp
 //verif:blockok
@@ -261,8 +261,10 @@ func verifHarness_C13_shutdown() {
 	for verifRunPending() {
 	}
 	verifAssume(verifMapCount() == 2)
-	idle := verifMap.vals[0].(*connection)
-	busy := verifMap.vals[1].(*connection)
+	// which of the two comes first in the table's iteration order is a choice
+	bi := verifPick("busy.index", 0, 1)
+	idle := verifMap.vals[1-bi].(*connection)
+	busy := verifMap.vals[bi].(*connection)
 	// the busy one: its handler is running (it holds the processing lock)
 	verifAssume(busy.lock(processing))
 	finishAfter := verifPick("busy.finishes.after", 0, 3)
@@ -307,8 +309,8 @@ func (c *verifDialCtxS) Value(key interface{}) interface{} { return nil }
 // starts, every accepted connection is tracked, and the listener is registered readable again
 // exactly once.
 //
-//verif:bounds accept script: j in [1,3] failures (EMFILE or ENFILE), then 0-2 connections, then none
-//verif:param 1 3
+//verif:bounds accept script: j in [1,9] failures (EMFILE or ENFILE; the back-off ladder has 7 steps), then 0-2 connections, then none
+//verif:param 1 9
 //verif:loop 40
 //verif:replay interp
 func verifHarness_C13_emfile(j int) {
